@@ -1,10 +1,12 @@
 """C02 - conventional files parse to exactly the sections, keys and values written."""
 from vlib import gen_doc
 from checks import docs
+from gen import extract_facts
+generate_facts = extract_facts.generate
 
 ID = "C02"
-LEAN_MODULES = ["Econf.Props.C02"]
-THEOREMS = ["Econf.C02_parse_render", "Econf.C02_parse_render_plain", "Econf.C02_entry_item", "Econf.parse_item", "Econf.splitLines_render"]
+LEAN_MODULES = ["Econf.Props.C02", "Econf.Props.Tie"]
+THEOREMS = ["Econf.C02_parse_render", "Econf.C02_parse_render_plain", "Econf.C02_entry_item", "Econf.C02_no_final_newline", "Econf.parseLine_noeol", "Econf.parse_item", "Econf.splitLines_render", "Econf.Struct.tie_macros"]
 RULE = ("grammar-directed documents of DESIGN.md 5.1 (0..60 items, every spelling choice drawn at random) x 7 delimiter sets x 3 comment "
         "sets x final newline present/absent; non-trivial = at least one entry or section; distinct by file content and sets")
 PATH = b"/etc/app/doc.conf"
